@@ -14,6 +14,7 @@ type Dgram struct {
 	At   time.Duration
 	Seq  int // arrival sequence number at the socket
 	Step int // global event sequence number (scheduler step) of the arrival / send
+	From *net.UDPAddr `json:"-"` // arrivals: the source address object (keeps an IPv6 zone as given)
 }
 
 // PacketSock is a simulated server-side UDP socket (net.PacketConn).
@@ -70,7 +71,10 @@ func (p *PacketSock) ReadFrom(b []byte) (int, net.Addr, error) {
 			if n < len(d.Data) {
 				s.Stats["udp_truncated"]++
 			}
-			a, _ := net.ResolveUDPAddr("udp", d.Peer)
+			var a net.Addr = d.From
+			if d.From == nil {
+				a, _ = net.ResolveUDPAddr("udp", d.Peer)
+			}
 			s.TraceLocked(p.Name + ".RF " + d.Peer + " " + strconv.Itoa(n))
 			s.Unlock()
 			return n, a, nil
@@ -181,7 +185,7 @@ func (p *PacketSock) Send(from *net.UDPAddr, data []byte, f UDPFaults) {
 		s.AtLocked(at.Sub(now), label, func() {
 			s.Lock()
 			if !p.closed {
-				dg := Dgram{Peer: key, Data: d, At: s.Elapsed(), Seq: len(p.Arrivals), Step: s.StepLocked()}
+				dg := Dgram{Peer: key, Data: d, At: s.Elapsed(), Seq: len(p.Arrivals), Step: s.StepLocked(), From: from}
 				p.Arrivals = append(p.Arrivals, dg)
 				p.queue = append(p.queue, dg)
 				poke(p.notify)
